@@ -40,7 +40,14 @@ NOINSTR const char *fi_kindname(int k) { return k >= 0 && k < FK_N ? kindnames[k
 #define LSIZE (1u << LBITS)
 static fi_ent tab[LSIZE];
 static long n_live;
-static int n_bad_release;
+static int n_bad_release, n_double_free;
+/* quarantine: a block freed by the armed thread inside the window is poisoned and NOT handed back to
+ * libc until the window closes, so that a second free of the same address is recognised with
+ * certainty (the address cannot have been re-issued) and a read through a dangling pointer sees
+ * 0xDD.. instead of plausible old contents */
+#define MAXQ 8192
+static unsigned qlist[MAXQ];
+static int n_q;
 static volatile int lk;
 NOINSTR static void lock(void) { while (__atomic_test_and_set(&lk, __ATOMIC_ACQUIRE)) ; }
 NOINSTR static void unlock(void) { __atomic_clear(&lk, __ATOMIC_RELEASE); }
@@ -167,34 +174,51 @@ NOINSTR static void record(void *key, size_t size, int kind, int op, int idx)
     }
 }
 
-/* returns 1 when the key was live */
-NOINSTR static int forget(void *key, int kind)
+/* returns 1 when the key was live.  quarantine: keep the entry (state 3) instead of a tombstone;
+ * *p_size receives the recorded size of a live block */
+NOINSTR static int forget_q(void *key, int kind, int quarantine, size_t *p_size)
 {
     int inw = in_window();
-    int found = 0, rid = -1;
+    int found = 0, rid = -1, dbl = 0;
     lock();
     unsigned h = hash(key, kind);
     while (tab[h].used) {
+        if (tab[h].used == 3 && tab[h].key == key && tab[h].kind == kind) {
+            dbl = 1; /* second free of a block that was freed inside this window */
+            break;
+        }
         if (tab[h].used == 1 && tab[h].key == key && tab[h].kind == kind) {
             found = 1;
             rid = tab[h].rid;
+            if (p_size)
+                *p_size = tab[h].size;
             if (inw && tab[h].win != w_id) {
                 w_pre_released++;
                 rid = -1;
             }
-            tab[h].used = 2;
+            if (quarantine && n_q < MAXQ) {
+                tab[h].used = 3;
+                qlist[n_q++] = h;
+                found = 2;
+            } else {
+                tab[h].used = 2;
+            }
             n_live--;
             break;
         }
         h = (h + 1) & (LSIZE - 1);
     }
-    if (!found)
+    if (!found) {
         n_bad_release++;
+        if (dbl)
+            n_double_free++;
+    }
     unlock();
     if (inw)
-        log_ev(0, kind, found ? 0 : 3, 0, rid);
+        log_ev(0, kind, found ? 0 : dbl ? 4 : 3, 0, rid);
     return found;
 }
+NOINSTR static int forget(void *key, int kind) { return forget_q(key, kind, 0, NULL); }
 
 NOINSTR void fi_note(const char *s)
 {
@@ -215,7 +239,24 @@ NOINSTR void fi_arm(int k)
     memset(fail_bt, 0, sizeof fail_bt);
     __atomic_store_n(&w_on, 1, __ATOMIC_SEQ_CST);
 }
-NOINSTR void fi_disarm(void) { __atomic_store_n(&w_on, 0, __ATOMIC_SEQ_CST); }
+NOINSTR void fi_disarm(void)
+{
+    __atomic_store_n(&w_on, 0, __ATOMIC_SEQ_CST);
+    /* hand the quarantined blocks back to libc */
+    for (;;) {
+        void *p = NULL;
+        lock();
+        if (n_q > 0) {
+            unsigned h = qlist[--n_q];
+            p = tab[h].key;
+            tab[h].used = 2;
+        }
+        unlock();
+        if (!p)
+            break;
+        __real_free(p);
+    }
+}
 NOINSTR int fi_fired(void) { return w_fired; }
 NOINSTR int fi_count(void) { return w_count; }
 NOINSTR int fi_nevents(void) { return n_ev; }
@@ -224,6 +265,7 @@ NOINSTR void *const *fi_fail_bt(void) { return fail_bt; }
 NOINSTR long fi_live_total(void) { return n_live; }
 NOINSTR int fi_pre_released(void) { return w_pre_released; }
 NOINSTR int fi_bad_releases(void) { return n_bad_release; }
+NOINSTR int fi_double_frees(void) { return n_double_free; }
 NOINSTR uint32_t fi_window(void) { return w_id; }
 NOINSTR int fi_live_in_window(const fi_ent **out, int max)
 {
@@ -323,8 +365,12 @@ NOINSTR void __wrap_free(void *p)
 {
     if (!p)
         return;
-    if (forget(p, FK_HEAP))
+    size_t size = 0;
+    int r = forget_q(p, FK_HEAP, in_window(), &size);
+    if (r == 1)
         __real_free(p);
+    else if (r == 2 && size)
+        memset(p, 0xDD, size); /* quarantined until fi_disarm() */
     /* a free of a block that is not live is recorded and NOT forwarded: the
      * ledger reports it (double free / free of a foreign pointer) and the run
      * continues deterministically instead of depending on glibc's detection */
